@@ -200,6 +200,8 @@ def P2(ctx, facts, allow_checkout_drop=True):
         allowed[co_drop.key] = "Checkout pinned drop"
     sites = _push_sites(facts)
     ctx.floor("pool-push-callers", len(sites), 2, "call sites of PoolInner::push")
+    for need, nm in ((when_drop, "WhenReady::drop"), (reg, "register_connected")):
+        ctx.floor("pool-push-from|%s" % nm, sum(1 for c in sites if c.fn.key == need.key), 1, "PoolInner::push call in %s" % nm)
     for c in sites:
         f = c.fn
         ctx.touched(f)
